@@ -10,12 +10,15 @@ CLASSNAME = {1: "SmoothStronglyConvexFunction", 2: "SmoothConvexFunction", 3: "C
              10: "LipschitzStronglyMonotoneOperator", 11: "ConvexLipschitzFunction", 12: "SmoothFunction"}
 
 
-def pep_cfg(maxf, maxs, classes, wrappers=("cvxpy",), dev=(), emit=True, invs=True):
+ALLF = ("steps", "comp", "cons", "lmi", "metrics", "part", "lmimetric", "unsent")
+
+
+def pep_cfg(maxf, maxs, classes, wrappers=("cvxpy",), dev=(), emit=True, invs=True, plain=False, allowed=ALLF):
     d = lambda n: "TRUE" if n in dev else "FALSE"
     s = ("CONSTANTS\n MaxFeatures = %d\n MaxSolves = %d\n Classes = {%s}\n DevF3 = %s\n DevF4 = %s\n DevF5 = %s\n"
-         " DevSkip = %s\n Wrappers = {%s}\nINIT Init\nNEXT Next\nCHECK_DEADLOCK FALSE\n" % (
+         " DevSkip = %s\n Wrappers = {%s}\n Plain = %s\n Allowed = {%s}\nINIT Init\nNEXT Next\nCHECK_DEADLOCK FALSE\n" % (
              maxf, maxs, ", ".join(str(c) for c in classes), d("F3"), d("F4"), d("F5"), d("Skip"),
-             ", ".join('"%s"' % w for w in wrappers)))
+             ", ".join('"%s"' % w for w in wrappers), "TRUE" if plain else "FALSE", ", ".join('"%s"' % a for a in allowed)))
     if invs:
         s += "INVARIANT DualMap\nINVARIANT SentOnce\nINVARIANT Fresh\nINVARIANT NativeShape\n"
     if emit:
@@ -69,6 +72,14 @@ def generate(res, tier, wd, want, wrappers=("cvxpy",)):
     r = tlc("Pep", pep_cfg(1, 1, classes_all, wrappers, invs=False), wd)
     res.add_tlc("Pep(export: <=1 feature, 1 solve, all classes)", r)
     progs = _progs_from(r["out"])
+    # (3b) every edit between two plain solves, for every class, without and with a partition (exhaustive)
+    r = tlc("Pep", pep_cfg(1, 2, classes_all, wrappers, invs=False, plain=True, allowed=("part",)), wd)
+    res.add_tlc("Pep(export: every edit between two plain solves, all classes, +/- partition)", r)
+    progs += [dict(p, _must=1) for p in _progs_from(r["out"]) if len(p["solves"]) == 2]
+    # (3c) the LMI-as-metric shapes (the off-diagonal variable(s) of the first LMI are the metric(s)), exhaustive
+    r = tlc("Pep", pep_cfg(3, 1, [1, 2, 5], wrappers, invs=False, plain=True, allowed=("lmi", "lmimetric", "metrics")), wd)
+    res.add_tlc("Pep(export: LMI shapes x LMI-as-metric x one/two metrics)", r)
+    progs += [dict(p, _must=1) for p in _progs_from(r["out"]) if p["prog"]["lmimetric"] == 1 and len(p["prog"]["lmis"]) == 1]
     n = 3000 if tier == "quick" else 30000
     r = tlc("Pep", pep_cfg(3, 3, classes_all, wrappers, invs=False), wd, workers=1, simulate="num=%d" % n,
             extra=["-depth", "7", "-seed", str(seed() + 3)])
@@ -161,7 +172,8 @@ def run_family(pid, tier, rule, select, want=lambda p: True, cap=None, wrappers=
         import random
         rnd = random.Random(seed() + 1)
         strata = {"plain": [], "heur": [], "multi": []}
-        for p in progs:
+        must = [p for p in progs if p.get("_must")]
+        for p in [q for q in progs if not q.get("_must")]:
             if len(p["solves"]) > 1:
                 strata["multi"].append(p)
             elif p["solves"][0]["heur"] != "none":
@@ -174,12 +186,13 @@ def run_family(pid, tier, rule, select, want=lambda p: True, cap=None, wrappers=
         live = [k for k in strata if strata[k]]
         tot = sum(share[k] for k in live)
         out, left = [], []
+        room = max(0, cap[tier] - len(must))
         for k in live:
-            n = int(cap[tier] * share[k] / tot)
+            n = int(room * share[k] / tot)
             out += strata[k][:n]
             left += strata[k][n:]
         rnd.shuffle(left)
-        progs = out + left[:max(0, cap[tier] - len(out))]
+        progs = must + (out + left)[:max(0, cap[tier] - len(must))]
         res.extra["program_strata"] = {k: len(v) for k, v in strata.items()}
     if transform:
         progs = [transform(p) for p in progs]
